@@ -3,6 +3,10 @@
 //! for the one thing the model assumes about the id counter: that allocation is a single atomic
 //! step (the model's LSpawn), so the ids of n spawns are exactly first..first+n-1, all distinct,
 //! and every handle derived from a reference carries the id it was created with.
+//! id_stress <threads> <per_thread> <failing_threads> : the same while <failing_threads> further
+//! threads keep calling spawn_with_mailbox_capacity(usize::MAX), which panics inside tokio after
+//! the id has been taken (C12: a failing spawn must not disturb the ids of the others; the ids are
+//! then distinct but need not be contiguous).
 use rsactor::{Actor, ActorRef, ActorWeak};
 use std::collections::BTreeSet;
 
@@ -21,6 +25,8 @@ impl Actor for A {
 fn main() {
     let threads: usize = std::env::args().nth(1).and_then(|s| s.parse().ok()).unwrap_or(16);
     let per: usize = std::env::args().nth(2).and_then(|s| s.parse().ok()).unwrap_or(500);
+    let failing: usize = std::env::args().nth(3).and_then(|s| s.parse().ok()).unwrap_or(0);
+    std::panic::set_hook(Box::new(|_| {}));
     let rt = tokio::runtime::Builder::new_multi_thread().worker_threads(8).enable_time().build().unwrap();
     let handle = rt.handle().clone();
     let barrier = std::sync::Arc::new(std::sync::Barrier::new(threads));
@@ -43,10 +49,29 @@ fn main() {
             out
         }));
     }
+    let done = std::sync::Arc::new(std::sync::atomic::AtomicBool::new(false));
+    let mut fths = vec![];
+    for _ in 0..failing {
+        let h = handle.clone();
+        let d = done.clone();
+        fths.push(std::thread::spawn(move || {
+            let _g = h.enter();
+            let mut n = 0usize;
+            while !d.load(std::sync::atomic::Ordering::SeqCst) {
+                let r = std::panic::catch_unwind(|| rsactor::spawn_with_mailbox_capacity::<A>((), usize::MAX));
+                if r.is_err() {
+                    n += 1;
+                }
+            }
+            n
+        }));
+    }
     let mut all = vec![];
     for t in ths {
         all.extend(t.join().unwrap());
     }
+    done.store(true, std::sync::atomic::Ordering::SeqCst);
+    let failed: usize = fths.into_iter().map(|t| t.join().unwrap()).sum();
     let ids: Vec<u64> = all.iter().map(|x| x.0).collect();
     let set: BTreeSet<u64> = ids.iter().cloned().collect();
     let unstable = all.iter().filter(|x| !x.1).count();
@@ -61,6 +86,10 @@ fn main() {
             let _ = j.await;
         }
     });
+    if failing > 0 {
+        println!("spawned={} distinct={} unstable={} failing_spawns_panicked={}", ids.len(), set.len(), unstable, failed > 0);
+        return;
+    }
     println!(
         "spawned={} distinct={} min={} max={} contiguous={} unstable={}",
         ids.len(),
